@@ -31,6 +31,7 @@ TplC18h == {T("ca1", "tls13", "request", "ok", "", <<"word">>), T("ca2", "tls13"
             T("foreign", "tls13", "ignore", "ok", "", <<"word">>), T("ca1", "tls12", "require", "ok", "", <<"word">>)}
 Wide == {"wide"}
 WideTight == {"wide", "tight"}
+WideTightNone == {"wide", "tight", "none"}
 NoHist == {"none"}
 AllHists == {"none", "before", "between", "signer", "rotate"}
 TlsBundles == {[cas |-> {"ca1"}, lay |-> "one"], [cas |-> {"ca1", "ca2"}, lay |-> "two"],
